@@ -9,7 +9,7 @@ import spec
 def H(x):
     return '~' if x is None else hexs(x)
 
-SEGS = ['', '.', '..', 'a', 'b:c', ':', '1a:b', '%2F', 'x']
+SEGS = ['', '.', '..', 'a', 'b:c', ':', '1a:b', '%2F', 'x', 'a..', '...']
 def rand_op(g, kind, abs_kind):
     k = g.pick(['ss', 'sa', 'sp', 'sq', 'sf', 'au', 'ah', 'ap', 'pp', 'pp', 'po', 'po', 'pc', 'ps', 'ps', 'pa', 'pn', 'pn'])
     if k == 'ss':
@@ -74,6 +74,21 @@ def main():
             ops = [o for o in ops if o[:2] in ('pp', 'po', 'pc', 'ps', 'pa', 'pn')] or ['po']
             lines.append('pathops\t%spath\t%s\t%s' % (fam[0], hexs(path), '\t'.join(ops)))
             meta.append((fam[0] + 'path', path, ops))
+        # several edits through ONE authority handle (the handle keeps its own offsets between calls)
+        for i in range(n // 6):
+            p = g.parts()
+            p['authority'] = g.pick(['h', 'example.org', 'u@h', 'h:80', 'u:p@h:8080', '', '[::1]', 'u@[::1]:1'] + (['é', 'u@ü:1'] if fam == 'iri' else []))
+            if p['path'] and not p['path'].startswith('/'): p['path'] = '/' + p['path']
+            abs_kind = p['scheme'] is not None and g.r.random() < 0.4
+            kind = fam + ('' if abs_kind else 'ref')
+            ops = []
+            for _ in range(g.pick([2, 2, 3, 4, 6])):
+                o = rand_op(g, kind, abs_kind)
+                while o[:2] not in ('au', 'ah', 'ap'):
+                    o = rand_op(g, kind, abs_kind)
+                ops.append(o)
+            lines.append('authops\t%s\t%s\t%s' % (kind, hexs(Gen.compose(p)), '\t'.join(ops)))
+            meta.append((kind + ' one authority handle', Gen.compose(p), ops))
         # in-place resolution
         for i in range(n // 8):
             base = g.parts(scheme=True); r = g.parts()
@@ -102,6 +117,14 @@ def main():
                 f = s.split('\t')
                 if len(f) >= 2 and f[1] != '1':
                     pr.append('after call %d (%s) the buffer %r is not well-formed / does not re-parse as %s' % (i, ops[i - 1], unhex(f[0]), kind)); break
+        elif line.startswith('authops'):
+            secs = io.split('\t|\t')
+            if len(secs) == 3:
+                f = secs[2].split('\t')
+                if f[1] != '1':
+                    pr.append('after the edits through one authority handle the buffer %r does not re-parse as %s' % (unhex(f[0]), kind.split()[0]))
+            elif io not in ('ERR', 'NOAUTH'):
+                pr.append('unexpected output ' + io[:80])
         elif line.startswith('pathops'):
             secs = io.split('\t|\t')
             if len(secs) == 2 and secs[1].split('\t')[-1] != '1':
